@@ -25,7 +25,7 @@ PROBES = {
             "limit_exceeded", "goal_query"],
     "C07": ["prob_0", "prob_1", "draw_within_1e-8_of_prob",
             "stochastic_escalation", "reexploit", "twins_on_eligible",
-            "twins_on_ineligible"],
+            "twins_on_ineligible", "episode_frequency"],
     "C08": ["obs_silent", "obs_exploit", "obs_privesc", "obs_service_scan",
             "obs_os_scan", "obs_process_scan", "obs_subnet_scan"],
     "C09": ["roundtrip"],
@@ -61,6 +61,8 @@ def budget(prop, tier):
 
 def extra(prop, tier):
     e = {"props": [prop]}
+    if prop in ("C09", "C10"):
+        e["huge_rate"] = 0.004     # a few scenarios with more than 200 hosts
     if prop == "C11":
         e["modes"] = [(fo, fa, fb) for fo in (False,) for fa in (True, True,
                                                                  False)
